@@ -23,8 +23,10 @@ class Keys:
 
 
 def frame_obs(f):
-    data = f.data if isinstance(f.data, (bytes, bytearray)) else str(f.data).encode("utf-8")
-    return f"f{f.fin}{f.opcode}:{digest(data)}"
+    # a received frame's payload is always bytes (the RFC payload); anything else is reported as such
+    if not isinstance(f.data, (bytes, bytearray)):
+        return f"f{f.fin}{f.opcode}:{type(f.data).__name__}!" + digest(str(f.data).encode("utf-8"))
+    return f"f{f.fin}{f.opcode}:{digest(f.data)}"
 
 
 def run_impl(sc):
@@ -34,8 +36,13 @@ def run_impl(sc):
     obs = []
     rems = []
     marks = [len(s.log)]
+    buffered = []
     for op in sc["ops"]:
         parts = op.split(":")
+        try:
+            buffered.append(sum(len(x) for x in ws.frame_buffer.recv_buffer))
+        except Exception:
+            buffered.append(-1)
         try:
             if op == "rf":
                 obs.append("ok:" + frame_obs(ws.recv_frame()))
@@ -76,6 +83,7 @@ def run_impl(sc):
         rems.append(sum(len(e[1]) for e in s.inbox if e[0] == "D"))
         marks.append(len(s.log))
     s.rems = rems
+    s.buffered = buffered
     s.marks = marks
     s.ws = ws
     io = []
